@@ -2,6 +2,14 @@
 # usage: tools/seedtest.sh <seed-dir containing patch.diff [demo.py]> <check ids...>
 # applies the patch to a scratch worktree of /repo HEAD, runs the demo before/after and the given checks with EON_REPO
 set -u
+# The checks regenerate coq/Gen/*.v and rewrite evidence/*.json from EON_REPO, so seeded trees are never checked from /verif
+# itself: a clone of /verif (committed state) is used, created and brought up to date here.
+V=${VERIF:-/root/w/seedrun}
+if [ "$V" = /verif ]; then echo "refusing to run seeded checks inside /verif"; exit 2; fi
+if [ ! -d $V/.git ]; then git clone -q /verif $V || exit 2; fi
+if [ -z "${SEEDTEST_NOSYNC:-}" ]; then
+  (cd $V && git checkout -q . && git pull -q origin main >/dev/null 2>&1; cur=$(git rev-parse HEAD); [ "$(cat .setup_done 2>/dev/null)" = "$cur" ] || { ./check setup >/dev/null 2>&1 && echo $cur > .setup_done; })
+fi
 SD=$1; shift
 W=/tmp/mw/seed_$$_$(basename $SD)
 git -C /repo worktree add -q --detach $W HEAD || exit 2
@@ -15,6 +23,6 @@ if [ -f $SD/demo.py ]; then
 fi
 for c in "$@"; do
   out=/tmp/mw/seed_$(basename $SD)_$c.txt
-  (cd ${VERIF:-/verif} && EON_REPO=$W timeout 1500 ./check $c --tier ${TIER:-quick} > $out 2>&1); rc=$?
+  (cd $V && EON_REPO=$W timeout 1500 ./check $c --tier ${TIER:-quick} > $out 2>&1); rc=$?
   echo "check $c: exit=$rc violations=$(grep -c '^VIOLATION' $out) nofail=$(grep -c 'no-failing-input-found' $out) :: $(grep 'what:' $out | head -2 | cut -c1-220 | tr '\n' '|')"
 done
